@@ -64,6 +64,24 @@ def check_int32(value, slot):
                     f"err={obj.err!r}"))
     if port.queue or port.misattributed():
         out.append(("align", f"{desc}: serial exchange misaligned"))
+    # ... and on a board whose RAM is not blank (an earlier session or another program left
+    # values there; the board stays powered): a new object writes, the RAM is inspected, a
+    # third object reads
+    for fill in (0xFF, 0x5A):
+        board2 = EBB3Board(future=True, nickname="Axi")
+        board2.ram = [fill] * 32
+        obj2, _port2, board2 = new_object(board=board2)
+        ret, exc = call(obj2, "var_write_int32", (value, slot))
+        got = board2.ram[slot:slot + 4]
+        other, _p3, _b3 = new_object(board=board2)
+        back, exc2 = call(other, "var_read_int32", (slot,))
+        rest = board2.ram[:slot] + board2.ram[slot + 4:]
+        if exc is not None or exc2 is not None or ret is not True or got != want or \
+                back != value or any(b != fill for b in rest):
+            out.append(("ram_used", f"{desc} through a new object on a board whose RAM held "
+                        f"{fill:#x} everywhere -> {ret!r} ({exc!r}): RAM[{slot}..{slot + 3}] = {got}, "
+                        f"expected {want}; a further object reads {back!r} ({exc2!r}); other "
+                        f"slots {'changed' if any(b != fill for b in rest) else 'untouched'}"))
     return out
 
 
